@@ -232,4 +232,33 @@ theorem gen_check_surfer_integrity_eq_model (body : List (List Rat)) (vals : Lis
   · have hne : fieldShape body ≠ shape := hs
     simp [hs, hne, bind, Except.bind, throw, throwThe, MonadExceptOf.throw]
 
+/-! ### The regenerated source satisfies the property -/
+/-- The translated `_read_surfer_header`: whenever it returns, the four header lines parsed to exactly the returned counts, (south, north),
+    (west, east) — assembled as region (W, E, S, N) — and data range. -/
+theorem src_read_header_ok (f : SurferFile) (s2 s3 s4 s5 : String) (rest : List SLine) (g : String) (sh : List Int)
+    (w e s n : Rat) (rg : List Rat)
+    (h : Gen.readSurferHeader (⟨f.gridId, []⟩ :: ⟨s2, f.shapeLine⟩ :: ⟨s3, f.nsLine⟩ :: ⟨s4, f.weLine⟩ :: ⟨s5, f.rangeLine⟩ :: rest)
+        = .ok (g, sh, (w, e, s, n), rg)) :
+    g = f.gridId ∧ f.shapeLine.mapM Tok.asInt = some sh ∧ f.nsLine.mapM Tok.asNum = some [s, n] ∧
+    f.weLine.mapM Tok.asNum = some [w, e] ∧ f.rangeLine.mapM Tok.asNum = some rg := by
+  rw [gen_read_surfer_header_eq_model] at h
+  cases hp : parseHeader f with
+  | error err => simp [hp, Except.map] at h
+  | ok hd =>
+    simp only [hp, Except.map, Except.ok.injEq, Prod.mk.injEq] at h
+    obtain ⟨rfl, rfl, ⟨rfl, rfl, rfl, rfl⟩, rfl⟩ := h
+    exact ⟨rfl, parseHeader_ok f hd hp⟩
+
+/-- The translated `_check_surfer_integrity` refuses a body whose shape differs from the header's and a data range that is not allclose
+    to the header's. -/
+theorem src_integrity_rejects (body : List (List Rat)) (vals : List Rat) (shape : List Int) (lo hi mn mx : Rat) :
+    (fieldShape body ≠ shape → Gen.checkSurferIntegrity (fieldShape body) vals shape [lo, hi] = .error .ioError) ∧
+    (fieldShape body = shape → listMin vals = some mn → listMax vals = some mx → (allclose1 mn lo && allclose1 mx hi) = false →
+      Gen.checkSurferIntegrity (fieldShape body) vals shape [lo, hi] = .error .ioError) := by
+  rw [gen_check_surfer_integrity_eq_model]
+  constructor
+  · intro h; simp [guardE, h, bind, Except.bind]
+  · intro h hmn hmx hbad
+    simp [guardE, h, bind, Except.bind, range_mismatch_rejected lo hi mn mx vals hmn hmx hbad]
+
 end Verde.C19
